@@ -54,6 +54,8 @@ def run_property(pid: str, tier: str, seed: int, repo: Repo | None = None) -> Ct
 
 
 def write_evidence(pid, tier, seed, ctx, wall, violations, known, error=None, selftest=None) -> str:
+    if os.environ.get("I2NSA_NO_EVIDENCE"):
+        return ""
     os.makedirs(EVIDENCE_DIR, exist_ok=True)
     mod = property_module(pid)
     insts = ctx.instances if ctx else []
